@@ -20,7 +20,7 @@ func (c16) Size(tier string) Size {
 	return Size{Batches: 4, Cases: 1500}
 }
 func (c16) Rule() string {
-	return "directed: ALL Rel values with type and relationship names in {a,b,aa,ab,ba,bb} (inverse name also empty) x 4 cardinality combinations, plus the same over names with '_' and '-'; generated: random Rel values over a colliding name pool, and coherent schemas (Check empty, FromType = owner, one-way and two-way relationships) materialised in several type/field insertion orders with Rels() called repeatedly. Oracle: algebraic laws on Invert/Normalize/String and my own pairing of the schema's relationships. Non-trivial = two-way relationship or schema with >= 2 relationships."
+	return "directed: ALL Rel values with type and relationship names in {a,b,aa,ab,ba,bb} (inverse name also empty) x 4 cardinality combinations, plus the same over names with '_' and '-'; generated: random Rel values over a colliding name pool, and coherent schemas (Check empty, FromType = owner, one-way and two-way relationships) materialised in several type/field insertion orders with Rels() called repeatedly. Oracle: algebraic laws on Invert/Normalize/String and my own pairing of the schema's relationships. The name pool has case variants (a/A, ab/Ab/aB/AB, é/É), padded names and names with quotes. Non-trivial = two-way relationship or schema with >= 2 relationships."
 }
 func (c16) Assumptions() []string {
 	return []string{"domain: type names, relationship names and target types non-empty; inverse name may be empty; a relationship with identical (type,name) on both ends has equal cardinalities (it is one relationship)",
@@ -140,7 +140,7 @@ func (m c16) Directed(c *Ctx) {
 	}}, NewRNG(2))
 }
 
-var c16Names = []string{"a", "b", "ab", "bc", "c", "a_b", "b_c", "a-b", "abc", "_", "a_", "_b", "a b", "b c", " ", "a ", " b", "a b c", "\"", "a\" \"b"}
+var c16Names = []string{"a", "b", "ab", "bc", "c", "a_b", "b_c", "a-b", "abc", "_", "a_", "_b", "a b", "b c", " ", "a ", " b", "a b c", "\"", "a\" \"b", "A", "B", "Ab", "aB", "AB", "é", "É"}
 
 func (m c16) Case(c *Ctx, r *RNG) {
 	// random Rel values
